@@ -38,6 +38,7 @@ RULES = {
     "R20.8": "the four problem constructors and the solver accept `config` or keyword arguments the same way: self.config = config if given else self.Config(**kwargs)",
     "R20.9": "verbosity: every validator-accepted level 0..4 is a key of the level table, the table is {0:ERROR,1:WARNING,2:INFO,3:DEBUG,4:TRACE}, the string table of set_verbosity is its inverse, anything else raises",
     "R20.10": "defaults: every field default lies in the validator-accepted domain, and the five solver configurations agree on the defaults of their shared fields (gamma of relative value iteration excepted); jax_double_precision defaults to True",
+    "R20.13": "no function or method of the package has a mutable or call-valued default argument (list / dict / set display, constructor call): it is evaluated once and shared by every call and every solver instance, so one solve could change the defaults of the next (expected count zero)",
     "R20.12": "a configuration value for which 0 / 0.0 is a valid setting (gamma, checkpoint_frequency, max_checkpoints, fire / substitution probability, random_seed) is never subjected to truthiness (`x or default`, `if x:`, `x and ...`): the valid zero would silently become the fallback (expected count zero; `verbose`, where 0 means quiet, is exempt)",
     "R20.11": "solver code never takes a dtype from a runtime value (`x.astype(v.dtype)`, `dtype=v.dtype`) nor casts to a narrower float: with double precision requested, results must not inherit the width of whatever estimates or tables came in (expected count zero)",
     "R20.6": "the 64-bit switch dominates every JAX array creation and the problem instantiation in Solver._setup_config; problem constructors do not create floating tables before a solver can enable it",
@@ -1038,6 +1039,22 @@ def _truthiness(ctx, col):
             f"({', '.join(sorted(fields))})", text="truthiness scanned")
 
 
+# =============================================================================== R20.13
+def _mutable_defaults(ctx, col):
+    nfn = 0
+    for m in sorted(ctx.repo.modules.values(), key=lambda x: x.name):
+        for fn in ast.walk(m.tree):
+            if not isinstance(fn, (ast.FunctionDef, ast.Lambda)):
+                continue
+            nfn += 1
+            for d in list(fn.args.defaults) + [d for d in fn.args.kw_defaults if d is not None]:
+                if isinstance(d, (ast.List, ast.Dict, ast.Set, ast.ListComp, ast.DictComp, ast.SetComp, ast.Call)):
+                    col.add("R20.13", f"{m.name}.{getattr(fn, 'name', '<lambda>')}", m.relpath, d.lineno, False,
+                            f"default argument `{ast.unparse(d)[:60]}` is created once when the function is defined and shared by all calls: state "
+                            "leaks from one call / solver instance into the next", text=f"mutable default {ast.unparse(d)[:40]}")
+    col.add("R20.13", "package", "src/mdpax", 0, True, f"{nfn} functions scanned: all defaults are immutable literals / names", text="defaults scanned")
+
+
 # =============================================================================== R20.7 / R20.8
 def _config_fields(ctx, col):
     n = 0
@@ -1135,6 +1152,7 @@ def run(ctx: Context, col) -> None:
     part(_defaults, ctx, col)
     part(_runtime_dtypes, ctx, col)
     part(_truthiness, ctx, col)
+    part(_mutable_defaults, ctx, col)
     part(_x64, ctx, col)
     try:
         _format_precision(ctx, col)
@@ -1150,6 +1168,7 @@ def run(ctx: Context, col) -> None:
     col.floor("R20.10", 40)
     col.floor("R20.11", 6)
     col.floor("R20.12", 1)
+    col.floor("R20.13", 1)
     col.floor("R20.7", 9)
     col.floor("R20.8", 5)
     col.floor("R20.1", 15)
